@@ -196,6 +196,35 @@ func c17Deaf(variant int) pxScenario {
 	return pxScenario{Icp: 0, Steps: b.steps, Tags: []string{"deaf"}}
 }
 
+// forged sources with sender-controlled routing fields: the claimed source is another attached peer / an unknown
+// name / the proxy's own name; the route record and the return route are [], [sender], [other], [x, sender],
+// [sender, x] (the sender may put anything there). Nothing of this may ever be handed to any peer (nor dialled).
+func c17Forged(claim int64, variant int) pxScenario {
+	b := &pxBuilder{tok: 100}
+	b.add(att(1)...)
+	b.add(att(2)...)
+	b.add(att(3)...)
+	sender := int64(1)
+	lists := [][]int64{nil, {sender}, {2}, {8, sender}, {sender, 8}, {2, sender}, {sender, sender}}
+	b.add(b.send(1, 2))
+	for ri, rec := range lists {
+		for ni, next := range lists {
+			if (ri+ni+variant)%2 == 1 && ri != 0 && ni != 0 {
+				continue // half of the pairs per variant
+			}
+			a := b.send(sender, int64(2+(ri+ni)%2*2)) // to an attached peer / a dialable name
+			a.Bad, a.Src = "spoof", claim
+			a.Rec, a.Next, a.HasN = rec, next, next != nil || ni%2 == 1
+			a.Shape = (ri*7 + ni) * 5
+			b.add(a)
+		}
+		b.add(b.send(3, 1)) // live traffic in between
+	}
+	b.add(b.send(1, 2))
+	return pxScenario{Icp: variant % 2 * 5, ByRef: variant%2 == 0, Steps: b.steps,
+		Tags: []string{"forged", fmt.Sprintf("claims=%d", claim)}}
+}
+
 // faults and cancellation at the same moment: a group of actions performed without waiting in between, the
 // cancellation either as one of them or from inside the forwarding loop (while it forwards a p -> q envelope)
 func c17Concurrent(what string, inLoop bool, variant int) pxScenario {
@@ -275,6 +304,12 @@ func c17Scenarios() []pxScenario {
 			}
 		}
 	}
+	var forged []pxScenario
+	for _, claim := range []int64{2, 3, 7, pxProxyName} {
+		for v := 0; v < 2; v++ {
+			forged = append(forged, c17Forged(claim, v))
+		}
+	}
 	// a dialled-on-demand peer whose connection fails: removed, reported, dialled again
 	for _, how := range []string{"read", "write", "write-blocked", "dialerror"} {
 		for v := 0; v < 2; v++ {
@@ -282,6 +317,7 @@ func c17Scenarios() []pxScenario {
 		}
 	}
 	var out []pxScenario
+	out = append(out, forged...)
 	out = append(out, bases...)
 	for bi, sc := range bases {
 		for pos := 0; pos <= len(sc.Steps); pos++ {
